@@ -220,6 +220,19 @@ impl Rig {
                 CommandResult::Continue(None)
             }))
             .expect("register sub");
+        // a command whose result jumps to its own line: three times (counting in the variable n), then it
+        // lets the script go on; `again forever` never does
+        commands
+            .set(fn_command("again", |c| {
+                let n: u64 = c.variables.get("n").and_then(|v| v.parse().ok()).unwrap_or(0);
+                c.variables.insert("n".into(), (n + 1).to_string());
+                if n < 3 || c.arguments.first().map(|a| a == "forever").unwrap_or(false) {
+                    CommandResult::GoTo(Some(n.to_string()), duckscript::types::command::GoToValue::Line(c.line))
+                } else {
+                    CommandResult::Continue(Some("done".to_string()))
+                }
+            }))
+            .expect("register again");
         wrap_all(&mut commands, &probe);
         let base_wrapped = probe.wrapped.borrow().clone();
         Rig { commands, probe, tape, emits, base_wrapped }
@@ -320,6 +333,13 @@ fn handwritten() -> Vec<(&'static str, String)> {
         ("alias", "alias hello set hi\nx = hello\ny = hello\nunalias hello\nz = set done"),
         ("push-pop-scope", "a = set 1\nscope_push_stack --copy a\nb = set 2\nscope_pop_stack --copy b\nc = set 3"),
         ("exit-early", "a = set 1\nexit\nb = set 2"),
+        // instructions that jump to their own line: the boundary between two visits of the same line is
+        // an instruction boundary like any other
+        ("goto-self-forever", ":spin goto :spin"),
+        ("goto-self-forever-after-lines", "a = set 1\n:spin goto :spin\nz = set never"),
+        ("goto-self-by-variable", "next = set :spin\n:spin next = goto ${next}\nz = set after"),
+        ("jump-to-own-line-counted", "a = set 1\nr = again\nz = set done"),
+        ("jump-to-own-line-forever", "a = set 1\nr = again forever\nz = set never"),
     ];
     v.into_iter().map(|(n, s)| (n, s.to_string())).collect()
 }
@@ -559,7 +579,7 @@ pub fn crash_sig(_case: &Value, kind: &str) -> String {
     kind.to_string()
 }
 
-pub const RULE: &str = "programs: 34 hand-written scripts over the standard library (straight line, nested runs started by a command on the same halt flag, goto loops, while true, for-in, nested loops, error path with on_error, functions plain/scoped/in condition position, script-implemented commands, alias, scope stack; 7 of them do not terminate) and the generated block programs of C04 under fixed answer tapes; every registered command (library, flow control, harness) is re-registered behind a wrapper that logs the entry with its nesting depth and is the scheduling point. For every command entry k of the unhalted run up to the horizon, top level or nested, plus k=0 (flag set before the run), the flag is raised at that point by the command itself and, separately, by a second OS thread the wrapper hands control to over a rendezvous channel. Oracle: the halted run returns Ok; its entry log equals the unhalted log up to the end of the top-level instruction in flight; no further top-level instruction starts; returned variables and the collections behind the handle table equal those at that boundary of the unhalted run. evaluations = programs; transitions = runs; non-trivial = program with nested command entries or non-terminating. Scale cases: the flag raised 999 / 5000 (thorough also 5001 and 60000) command entries into an endless while loop, a loop nest and a loop calling a function, by the command itself and by the second thread";
+pub const RULE: &str = "programs: 34 hand-written scripts over the standard library (straight line, nested runs started by a command on the same halt flag, goto loops, while true, for-in, nested loops, error path with on_error, functions plain/scoped/in condition position, script-implemented commands, alias, scope stack; 7 of them do not terminate) and the generated block programs of C04 under fixed answer tapes; every registered command (library, flow control, harness) is re-registered behind a wrapper that logs the entry with its nesting depth and is the scheduling point. For every command entry k of the unhalted run up to the horizon, top level or nested, plus k=0 (flag set before the run), the flag is raised at that point by the command itself and, separately, by a second OS thread the wrapper hands control to over a rendezvous channel. Oracle: the halted run returns Ok; its entry log equals the unhalted log up to the end of the top-level instruction in flight; no further top-level instruction starts; returned variables and the collections behind the handle table equal those at that boundary of the unhalted run. evaluations = programs; transitions = runs; non-trivial = program with nested command entries or non-terminating. Scale cases: the flag raised 999 / 5000 (thorough also 5001 and 60000) command entries into an endless while loop, a loop nest and a loop calling a function, by the command itself and by the second thread. Programs include instructions that jump to their own line (goto to its own label, by a variable, a command answering GoTo(own line) three times or for ever)";
 pub const ASSUMPTIONS: &[&str] = &["the setter's only visible action is one SeqCst store on the shared AtomicBool; the runner's only visible actions on it are its polls, so placing the store at every command entry plus 'before the run' covers the interleaving space at command-entry granularity", "a store landing inside a single command's Rust body is indistinguishable from a store at its entry as long as commands do not read the flag"];
 pub const EXHAUSTIVE: bool = true;
 pub const WALL_CAP_S: (u64, u64) = (55, 1500);
